@@ -363,7 +363,7 @@ func (c *FnCtx) heap(st *State, key string, s Sort) Term {
 // sentinelFact: package-level error variables named Err* are sentinel values created once by
 // errors.New / fmt.Errorf and never reassigned: non-nil (listed assumption).
 func (c *FnCtx) sentinelFact(name string, t types.Type, v Term) {
-	if isErrorType(t) && (strings.HasPrefix(name, "Err") || name == "Canceled" || name == "DeadlineExceeded" || name == "EOF") {
+	if isErrorType(t) && (strings.HasPrefix(name, "Err") || (strings.HasPrefix(name, "err") && len(name) > 3 && name[3] >= 'A' && name[3] <= 'Z') || name == "Canceled" || name == "DeadlineExceeded" || name == "EOF") {
 		c.define(gt(v, tZero))
 		c.g.note("sentinel error variables (Err*) are non-nil and never reassigned")
 	}
